@@ -29,8 +29,8 @@ impl Property for C04 {
     }
     fn config(&self, tier: Tier) -> PropConfig {
         match tier {
-            Tier::Quick => PropConfig { cases: 4_000, max_tape: 120, shards: 8 },
-            Tier::Thorough => PropConfig { cases: 80_000, max_tape: 200, shards: 16 },
+            Tier::Quick => PropConfig { cases: 30000, max_tape: 120, shards: 12 },
+            Tier::Thorough => PropConfig { cases: 480000, max_tape: 200, shards: 16 },
         }
     }
     fn prelude(&self, reg: &Registry, shard: u32, _n: u32, _tier: Tier, st: &mut Stats) -> CaseResult {
